@@ -955,7 +955,9 @@ where
     where
         I: 'src;
 
-    const NONCONSUMPTION_IS_OK: bool = A::NONCONSUMPTION_IS_OK && B::NONCONSUMPTION_IS_OK;
+    // Either half may yield items without consuming input (`into_iter()`, `or_not()`), so the chain as a whole
+    // may too
+    const NONCONSUMPTION_IS_OK: bool = A::NONCONSUMPTION_IS_OK || B::NONCONSUMPTION_IS_OK;
 
     #[inline(always)]
     fn make_iter<M: Mode>(
